@@ -247,3 +247,18 @@ def next_label(prev, line, state_indent):
             return 'dcnt' if prev == 'dcnt' else 'want'
         return 'dcnt' if has_prompt(norm, '...') else 'dsrc'
     return 'want'
+
+
+# ------------------------------------------------------------------ int(str) (C09: traceback location lines)
+def _is_int_native(s):
+    try:
+        int(s)
+        return True
+    except ValueError:
+        return False
+
+
+@_native('(str) -> bool', _app_builder('py_is_int', ['String'], 'Bool'))
+def is_int_literal(s):
+    """int(s) succeeds (the same uninterpreted predicate the model of int(str) raises ValueError on)."""
+    return _is_int_native(s)
